@@ -7,7 +7,7 @@
    (Independence). *)
 From Coq Require Import ZArith List Bool Lia.
 From Mistletoe Require Import Base.Sx Base.PyStr Base.PyText Gen.GenRegex Gen.GenConfig Re.ReMatch Model.CoreTokens Model.Block Proofs.ReFirst
-     Proofs.BlockProgress Proofs.Independence Proofs.QuoteLaw Proofs.ListLaw Proofs.ListLaw2 Proofs.FenceLaw Proofs.Prose Proofs.PlainProse Proofs.ProseLines Proofs.HeadingLaw Spec.Fragment.
+     Proofs.BlockProgress Proofs.Independence Proofs.QuoteLaw Proofs.ListLaw Proofs.ListLaw2 Proofs.FenceLaw Proofs.Prose Proofs.PlainProse Proofs.ProseLines Proofs.HeadingLaw Proofs.SetextLaw Proofs.ThematicLaw Spec.Fragment.
 Import ListNotations.
 Local Open Scope Z_scope.
 
@@ -129,6 +129,7 @@ Fixpoint wf_b (t : ftree) : bool :=
   | FHead lv c body =>
     Nat.leb 1 lv && Nat.leb lv 6 && plain_text (c :: body) && negb (mem 35 (c :: body)) && negb (mem 9 (c :: body)) &&
     negb (is_space_c c) && negb (is_space_c (last (c :: body) 0))
+  | FRule c _ => (c =? 45) || (c =? 95) || (c =? 42)
   end.
 
 (* ---- the text of the spelled forms ---- *)
@@ -194,6 +195,7 @@ Section Main.
   Hypothesis Hp : In BK_Paragraph types.
   Hypothesis Hf : fence_first types = true.
   Hypothesis Hh : heading_first types = true.
+  Hypothesis Hr : thematic_first types = true.
 
   Definition P (f : nat) : Prop := forall t ln st, wf_b t = true -> (depth t <= f)%nat ->
     tokenize_block types (S f) (text_of (spell t)) ln st = ([pre_of md ln t], false, st_after st t).
@@ -243,6 +245,25 @@ Section Main.
   Proof.
     intros Hw. pose proof (head_try (tokenize_block types f) lv c body [] ln st Hw) as T. rewrite app_nil_r in T.
     destruct (head_wf lv c body Hw) as [((H1 & _) & _) _]. rewrite head_text in * by exact H1.
+    cbn [tokenize_block length dispatch_loop]. rewrite T. reflexivity.
+  Qed.
+
+  Lemma rule_wf c n : wf_b (FRule c n) = true -> c = 45 \/ c = 95 \/ c = 42.
+  Proof.
+    cbn [wf_b]. intros H. apply orb_true_iff in H as [H|H]; [apply orb_true_iff in H as [H|H]|]; apply Z.eqb_eq in H; auto.
+  Qed.
+
+  Lemma rule_text c n : text_of (spell (FRule c n)) = [tline c n].
+  Proof. reflexivity. Qed.
+
+  Lemma rule_try rec c n rest ln st : wf_b (FRule c n) = true ->
+    try_types types rec types (text_of (spell (FRule c n)) ++ rest) ln st = Some (pre_of md ln (FRule c n), 1%nat, st).
+  Proof. intros Hw. rewrite rule_text. cbn [app pre_of]. apply (try_types_thematic types rec c (rule_wf c n Hw) n rest ln st types Hr). Qed.
+
+  Lemma rule_tokenize f c n ln st : wf_b (FRule c n) = true ->
+    tokenize_block types (S f) (text_of (spell (FRule c n))) ln st = ([pre_of md ln (FRule c n)], false, st).
+  Proof.
+    intros Hw. pose proof (rule_try (tokenize_block types f) c n [] ln st Hw) as T. rewrite app_nil_r in T. rewrite rule_text in *.
     cbn [tokenize_block length dispatch_loop]. rewrite T. reflexivity.
   Qed.
 
@@ -356,7 +377,7 @@ Section Main.
   Lemma first_line_follower t : is_item t = false -> wf_b t = true ->
     exists l2 more, text_of (spell t) = l2 :: more /\ (forall p, 0 < p -> parse_continuation l2 p = None) /\ parse_marker l2 = None.
   Proof.
-    intros Hi Hw. destruct t as [c body more|ch n content|ts|mk pad ts|lv hc hb]; [| | |discriminate|].
+    intros Hi Hw. destruct t as [c body more|ch n content|ts|mk pad ts|lv hc hb|rc rn]; [| | |discriminate| |].
     - destruct (wf_para c body more Hw) as (Hw' & Hnm & _).
       destruct Hw' as (Hpl & Hf1 & _ & _). cbn [hd] in Hf1.
       assert (Hc : first_ok c = true).
@@ -384,11 +405,20 @@ Section Main.
       + intros p Hp0. apply parse_continuation_short; [reflexivity| |exact Hp0].
         unfold mem. rewrite existsb_app. fold (mem 10 (repeat 35 (lv - 1))). rewrite (mem_repeat 10 35) by lia. cbn [existsb orb Z.eqb Pos.eqb]. exact H10.
       + unfold parse_marker, line_of. cbn [repeat app]. rewrite rmatch_first; [reflexivity|]. pose proof hash_facts as F. repeat rewrite andb_true_iff in F. tauto.
+    - pose proof (rule_wf rc rn Hw) as Hc. rewrite rule_text. eexists. eexists. split; [reflexivity|]. split.
+      + intros p Hp0. unfold tline. change (repeat rc (S (S (S rn))) ++ [10]) with (line_of 0 rc (repeat rc (S (S rn)))).
+        apply parse_continuation_short; [destruct Hc as [->|[->| ->]]; reflexivity| |exact Hp0].
+        apply mem_repeat. destruct Hc as [->|[->| ->]]; discriminate.
+      + destruct Hc as [->|[->| ->]].
+        * apply (bullets_no_marker 45 (S rn)). left. reflexivity.
+        * unfold parse_marker, tline. change (repeat 95 (S (S (S rn))) ++ [10]) with (95 :: (repeat 95 (S (S rn)) ++ [10])).
+          rewrite rmatch_first; [reflexivity|vm_compute; reflexivity].
+        * apply (bullets_no_marker 42 (S rn)). right. reflexivity.
   Qed.
 
   Lemma C_from f : (forall f', f = S f' -> Q f') -> C f.
   Proof.
-    intros HQ t ln st Hw Hd. destruct t as [c body more|ch n content|ts|mk pad ts|lv hc hb].
+    intros HQ t ln st Hw Hd. destruct t as [c body more|ch n content|ts|mk pad ts|lv hc hb|rc rn].
     - split; [cbn [spell text_of map]; discriminate|]. intros B _. rewrite para_try_app by exact Hw. reflexivity.
     - split; [destruct (fence_wf ch n content Hw) as ((_ & H3) & _); rewrite fence_text by lia; discriminate|].
       intros B _. rewrite fence_try by exact Hw. reflexivity.
@@ -424,6 +454,7 @@ Section Main.
       destruct md; [rewrite andb_false_r; reflexivity|]. rewrite pre_seq_length. unfold nlines. cbn [negb andb]. rewrite andb_diag. reflexivity.
     - destruct (head_wf lv hc hb Hw) as [((H1 & _) & _) _]. split; [rewrite head_text by exact H1; discriminate|].
       intros B _. rewrite head_try by exact Hw. rewrite head_text by exact H1. reflexivity.
+    - split; [rewrite rule_text; discriminate|]. intros B _. rewrite rule_try by exact Hw. rewrite rule_text. reflexivity.
   Qed.
 
   Lemma Q_from f : P f -> C f -> Q f.
@@ -453,7 +484,7 @@ Section Main.
 
   Lemma P_succ f : Q f -> P (S f).
   Proof.
-    intros HQ t ln st Hw Hd. destruct t as [c body more|ch n content|ts|mk pad ts|lv hc hb].
+    intros HQ t ln st Hw Hd. destruct t as [c body more|ch n content|ts|mk pad ts|lv hc hb|rc rn].
     - rewrite para_tokenize by exact Hw. reflexivity.
     - rewrite fence_tokenize by exact Hw. reflexivity.
     - cbn [wf_b] in Hw. repeat rewrite andb_true_iff in Hw. destruct Hw as [[Hs Hall] Hg].
@@ -472,14 +503,16 @@ Section Main.
       rewrite pre_of_item.
       destruct md; [rewrite andb_false_r; reflexivity|]. rewrite pre_seq_length. unfold nlines. cbn [negb andb]. rewrite andb_diag. reflexivity.
     - rewrite head_tokenize by exact Hw. reflexivity.
+    - rewrite rule_tokenize by exact Hw. reflexivity.
   Qed.
 
   Lemma P_zero : P 0.
   Proof.
-    intros t ln st Hw Hd. destruct t as [c body more|ch n content|ts|mk pad ts|lv hc hb]; [| |cbn [depth] in Hd; lia|cbn [depth] in Hd; lia|].
+    intros t ln st Hw Hd. destruct t as [c body more|ch n content|ts|mk pad ts|lv hc hb|rc rn]; [| |cbn [depth] in Hd; lia|cbn [depth] in Hd; lia| |].
     - rewrite para_tokenize by exact Hw. reflexivity.
     - rewrite fence_tokenize by exact Hw. reflexivity.
     - rewrite head_tokenize by exact Hw. reflexivity.
+    - rewrite rule_tokenize by exact Hw. reflexivity.
   Qed.
 
   Theorem fragment_all : forall f, P f /\ Q f.
@@ -498,7 +531,7 @@ End Main.
 (* ---- the token configurations that are modelled qualify ---- *)
 From Mistletoe Require Import Model.Parser.
 Definition fragment_config (types : list block_kind) : bool :=
-  no_blankline_kind types && quote_first types && list_first types && existsb (fun k => kind_eqb k BK_Paragraph) types && fence_first types && heading_first types.
+  no_blankline_kind types && quote_first types && list_first types && existsb (fun k => kind_eqb k BK_Paragraph) types && fence_first types && heading_first types && thematic_first types.
 Lemma fragment_configs :
   forallb (fun c => fragment_config (cfg_block c)) [cfg_html; cfg_html_nohtml; cfg_latex; cfg_mathjax; cfg_default] = true.
 Proof. vm_compute. reflexivity. Qed.
@@ -506,7 +539,7 @@ Proof. vm_compute. reflexivity. Qed.
 Theorem fragment_tree_cfg types t f ln st : fragment_config types = true -> wf_b t = true -> (depth t <= f)%nat ->
   tokenize_block types (S f) (text_of (spell t)) ln st = ([pre_of false ln t], false, st_after st t).
 Proof.
-  unfold fragment_config. intros H. repeat rewrite andb_true_iff in H. destruct H as [[[[[H1 H2] H3] H4] H5] H6].
+  unfold fragment_config. intros H. repeat rewrite andb_true_iff in H. destruct H as [[[[[[H1 H2] H3] H4] H5] H6] H7].
   apply (fragment_tree types false); try assumption; [|apply in_dec_paragraph; exact H4].
   intros rec m B ln0 acc lo st0. rewrite dispatch_nl by exact H1. cbn [blank_entry app negb]. rewrite orb_true_r. reflexivity.
 Qed.
@@ -556,6 +589,7 @@ Section TokOf.
       List (if slen leader =? 1 then None else Some (int_of_digits (removelast leader))) loose
            [ListItem (mkItem leader 0 (Z.of_nat (length leader + pad)) loose) (seq ts)]
     | FHead lv c body => Heading (Z.of_nat lv) [] [RawText (c :: body)]
+    | FRule c n => ThematicBreak (repeat c (S (S (S n))))
     end.
   Fixpoint tok_seq (ts : list ftree) : list tok :=
     match ts with
@@ -590,11 +624,19 @@ Section Tokens.
     constructor; [|constructor]. repeat split; [exact Hp|discriminate|]. intros E. rewrite E in H7. vm_compute in H7. discriminate.
   Qed.
 
+  Lemma build_rule c n ln : wf_b (FRule c n) = true ->
+    build span_types keep fn (pre_of md ln (FRule c n)) = Some (tok_of md (FRule c n)).
+  Proof.
+    intros Hw. cbn [wf_b] in Hw. assert (Hc : c = 45 \/ c = 95 \/ c = 42).
+    { apply orb_true_iff in Hw as [H|H]; [apply orb_true_iff in H as [H|H]|]; apply Z.eqb_eq in H; auto. }
+    cbn [pre_of build tok_of]. f_equal. f_equal. change (c :: repeat c (S (S n)) ++ [10]) with (tline c n). apply strip_tline. exact Hc.
+  Qed.
+
   Lemma build_fragment : forall f t ln, (depth t <= f)%nat -> wf_b t = true ->
     build span_types keep fn (pre_of md ln t) = Some (tok_of md t).
   Proof.
     induction f as [|f IH]; intros t ln Hd Hw.
-    - destruct t as [c body more|ch n content|ts|mk pad ts|lv hc hb]; [apply build_para; exact Hw|reflexivity|cbn [depth] in Hd; lia|cbn [depth] in Hd; lia|apply build_head; exact Hw].
+    - destruct t as [c body more|ch n content|ts|mk pad ts|lv hc hb|rc rn]; [apply build_para; exact Hw|reflexivity|cbn [depth] in Hd; lia|cbn [depth] in Hd; lia|apply build_head; exact Hw|apply build_rule; exact Hw].
     - assert (Kids : forall ts ln, Forall (fun t => (depth t <= f)%nat) ts -> forallb wf_b ts = true ->
                 flat_map (fun e => match build span_types keep fn e with Some t => [t] | None => [] end) (pre_seq md ln ts) = tok_seq md ts).
       { induction ts as [|t0 r IHr]; intros ln0 Hds Hws; [reflexivity|].
@@ -602,7 +644,7 @@ Section Tokens.
         cbn [pre_seq flat_map tok_seq]. rewrite (IH t0 ln0) by assumption. cbn [app]. f_equal.
         destruct r as [|t1 r']; [reflexivity|]. rewrite flat_map_app. rewrite IHr by assumption.
         f_equal. unfold blank_entry, blank_tok. destruct md; reflexivity. }
-      destruct t as [c body more|ch n content|ts|mk pad ts|lv hc hb]; [apply build_para; exact Hw|reflexivity| | |apply build_head; exact Hw].
+      destruct t as [c body more|ch n content|ts|mk pad ts|lv hc hb|rc rn]; [apply build_para; exact Hw|reflexivity| | |apply build_head; exact Hw|apply build_rule; exact Hw].
       + cbn [wf_b] in Hw. repeat rewrite andb_true_iff in Hw. destruct Hw as [[_ Hall] _].
         rewrite pre_of_quote. cbn [build]. rewrite Kids; [reflexivity| |exact Hall].
         apply children_depth. cbn [depth] in Hd. exact Hd.
